@@ -200,7 +200,7 @@ def inflight_worker(ctx, job):
                         if "ok" not in rep:
                             V.violation(res, "inflight:open-%s" % classify(rep), "open failed %r" % rep, replay)
                             continue
-                        r = srv.call({"op": "w_poll_write_drop", "h": rep["ok"]["h"], "data": {"gen": [n, 5]}, "delay_ms": delay, "linger_ms": 40})
+                        r = srv.call({"op": "w_poll_write_drop", "h": rep["ok"]["h"], "data": {"gen": [n, 5]}, "delay_ms": delay, "linger_ms": 3000, "tmp_dir": cache})
                         V.outcome(res, "polled-%s/%s" % ("pending" if r.get("ok", {}).get("pending") else "ready", "late-drop" if delay else "early-drop"))
                         if "ok" not in r or r.get("panics"):
                             V.violation(res, "inflight:%s" % classify(r), "poll/drop did not return normally: %r" % r, replay)
@@ -246,7 +246,7 @@ def inflight_fsx_worker(ctx, job):
                         req = {"op": "aw_open", "cache": cache, "opts": {} if declared is None else {"size": declared}}
                         if keyed:
                             req["key"] = a
-                        prog = [req, {"op": "w_poll_write_drop", "h": {"ref": 0}, "data": {"gen": [n, 5]}, "delay_ms": 0, "linger_ms": 150}]
+                        prog = [req, {"op": "w_poll_write_drop", "h": {"ref": 0}, "data": {"gen": [n, 5]}, "delay_ms": 0, "linger_ms": 5000, "tmp_dir": cache}]
                         pf = ctx.path("prog-c14x.json")
                         with open(pf, "w") as fh:
                             _json.dump(prog, fh)
